@@ -31,7 +31,7 @@ TRUSTED = [
     "modelled not verified: registers and every other part of the compiler; metatables never change after creation "
     "(so the run-time 'missing __close' check in cleanupCloseStack is not exercised); handlers are atomic (record, maybe raise)",
 ]
-THEOREMS_IM = ["C10_compile_correct_partial", "C10_compile_correct_labels_first_partial", "C10_tailcall_disabled_with_pending_close"]
+THEOREMS_IM = ["C10_compile_correct", "C10_tailcall_disabled_with_pending_close"]
 
 # ------------------------------------------------------------------ programs
 # stmt: ('L', v) ('D', b) ('W', b) ('U', b) ('F', v, b) ('I', b) ('B',) ('G', l) (':', l) ('M', n)
@@ -458,7 +458,7 @@ def has_closed_yield_under_pcall(b, in_coro_closed=False, under_pcall=False):
 
 def labels_first(b):
     """FragL.fragBl false: in every block the label statements precede the block's first local
-    (the fragment on which compile_correct is proved)"""
+    (informational: compile_correct is proved for the whole language; this only classifies generated programs)"""
     seen_local = False
     for s in b[0]:
         k = s[0]
@@ -667,7 +667,7 @@ def run(tier, seed):
         ck.case(canon, nontrivial=("c" in gt))
         ck.count("closes_in_trace:%s" % min(gt.count("c"), 6))
         if r["model"]["I"] != "NOCOMPILE":
-            ck.count("compile_correct:" + ("proved fragment (labels first)" if labels_first(b) else "outside proved fragment (evaluated only)"))
+            ck.count("program:" + ("labels first" if labels_first(b) else "labels after a local / back labels"))
         if r["model"]["I"] == "NOCOMPILE":
             ck.count("outcome:compile_error")
         elif r["model"]["R"] == "FUEL":
